@@ -549,9 +549,16 @@ pub fn run(p: &[String]) -> Vec<String> {
             }
             if p.len() > 5 && b(&p[5]) {
                 // the workbook as read from a file: its own table holds the strings of its cells
+                // (read lazily and loaded sheet by sheet, the way that keeps the loaded table longest)
                 let mut buf: Vec<u8> = Vec::new();
                 umya_spreadsheet::writer::xlsx::write_writer(&book, &mut buf).unwrap();
-                book = umya_spreadsheet::reader::xlsx::read_reader(std::io::Cursor::new(buf), true).unwrap();
+                let dir = std::env::temp_dir().join(format!("umya_hist_{}", std::process::id()));
+                std::fs::create_dir_all(&dir).unwrap();
+                let path = dir.join("loaded.xlsx");
+                std::fs::write(&path, &buf).unwrap();
+                book = umya_spreadsheet::reader::xlsx::lazy_read(&path).unwrap();
+                let _ = book.get_sheet_by_name_mut("Sheet1").unwrap().get_cell((1, 1));
+                let _ = std::fs::remove_dir_all(&dir);
             }
             match hist.as_str() {
                 "save" => save("save", &book),
@@ -824,13 +831,17 @@ pub fn run(p: &[String]) -> Vec<String> {
         }
         // ---- C20
         "csv_export" => {
-            // "c,r=hex;..." do_trim wrap
+            // "c,r=hex;..." do_trim wrap [removed "c,r"]
             let mut book = umya_spreadsheet::new_file();
             let ws = book.get_sheet_by_name_mut("Sheet1").unwrap();
             for item in unhex(&p[1]).split(';').filter(|s| !s.is_empty()) {
                 let (k, v) = item.split_once('=').unwrap();
                 let (c, r) = k.split_once(',').unwrap();
                 ws.get_cell_mut((u(c), u(r))).set_value_string(unhex(v));
+            }
+            if p.len() > 4 {
+                let rem = unhex(&p[4]);
+                if let Some((c, r)) = rem.split_once(',') { ws.remove_cell((u(c), u(r))); }
             }
             let mut opt = umya_spreadsheet::structs::CsvWriterOption::default();
             opt.set_do_trim(b(&p[2]));
